@@ -11,10 +11,14 @@ import OnlVerif.Lemmas.TcpLiveRun
   pairwise non-touching, and covers exactly the received bytes.  Sequence numbers and sizes are natural numbers.
 * **Sender** (`OnlVerif/Tcp/CC.lean`, LTS of `TCPPacketGenerator` over exact rationals `ℚ`): no sequence of actions
   raises; on a loss-free, timely path nothing is sent twice; partial progress lemmas.
+* **Closed loop** (`OnlVerif/Tcp/Loop.lean`, `LoopLive.lean`: sender ∥ lossy FIFO data path ∥ sink ∥ lossy FIFO ACK
+  path) for a finite flow: the run never ends early (`quiescent_implies_complete`), never gets stuck (`never_stuck`),
+  no reachable state is a dead end (`can_always_complete`), and every fair run with finitely many losses terminates
+  with everything delivered and acknowledged (`terminates_under_loss_budget`).
 
-Closed-loop liveness (sender + sink + two lossy FIFO paths reach `last_ack = size` for every finite drop pattern) is
-**not** proved; the statement is kept at the end with what is missing.  The correspondence check explores drop
-patterns against the real code as a failing-input search, not as that proof.
+What is still open in closed-loop liveness (termination when timers may expire while packets are in flight) is stated
+in the comment before the examples.  The correspondence check explores drop patterns against the real code as a
+failing-input search, not as a proof.
 -/
 
 namespace C16
@@ -326,7 +330,7 @@ theorem fair_run_facts (n : Nat) (l : Loop ℚ) (h : LInv n l) :
    fun _ _ hf hs => fair_decreases h hf hs⟩
 
 /-
-**Not proved — closed-loop liveness.**  Full statement:
+**Closed-loop liveness: what is proved and what is not.**  Full statement of the property clause:
 
   for every flow size `size = n · MSS`, `n ≥ 1`, every pair of order-preserving paths with arbitrary non-negative
   per-packet delays and finite sets `D`, `A` of dropped transmission indices (data, ACK direction), every
@@ -334,22 +338,36 @@ theorem fair_run_facts (n : Nat) (l : Loop ℚ) (h : LInv n l) :
   the closed system  sender LTS ∥ data path ∥ `TcpSink.put` ∥ ACK path  reaches, after finitely many steps, a state
   with `sink.recv_buffer = [(0, size)]` and `sender.last_ack = size`, and no step on the way is an error.
 
-What is there: `sender_never_raises` (no error, for all ACK/timer sequences, hence in the closed loop too),
-`sink_ack_prefix` (the ACKs that come back are the true prefix lengths), the progress lemmas (a)–(d): every new
-segment is timed; a timer goes away only through an ACK that covers or answers its segment; a due timer retransmits
-and re-arms; a new ACK advances `last_ack` and wakes `run`; and for the closed loop with arbitrary losses the joint
-safety invariant (e), (f): whatever the sink lacks is under a pending timer, and ACKs in flight never overstate what
-the sink holds.
+Proved above, for the model `OnlVerif/Tcp/Loop.lean` (+ `LoopLive.lean`), all for `cc.mss ≥ 512` (see below):
 
-What is missing: (1) the drop sets as *finite* sets of transmission indices (the loop model lets a path lose any
-packet at any time, which is what safety needs but makes liveness false without a fairness/finite-loss assumption);
-(2) the well-founded measure: lexicographically (segments the sink lacks,
-drop indices not yet consumed, retransmissions until the next undropped index) decreases between consecutive timer
-expiries - this needs fairness of the kernel (time advances: G1-G3 of C01) and the argument that the transmission
-indices of both paths eventually exceed `max D`, `max A`; (3) `last_ack = size` at quiescence, i.e. the last ACK is
-retransmitted through duplicate data when it is dropped.  None of these is contradicted by the 7 000+ closed loops
-the thorough tier runs (all drop subsets of size ≤ 2 for flows of ≤ 8 segments, random larger ones), which is evidence,
-not proof.
+* no error on the way: `sender_never_raises`, `acks_in_flight_are_backed_partial`;
+* safety half, for *arbitrary* delays (any interleaving of clock ticks with deliveries) and *arbitrary* losses (any
+  packet in flight may be lost at any time, finitely or infinitely often): `quiescent_implies_complete` - whenever the
+  event queue runs empty, everything has been delivered and acknowledged - and `never_stuck` - until then some event
+  is enabled;
+* `can_always_complete`: from every state reachable under arbitrary delays and losses, a finite loss-free continuation
+  reaches the complete state - no loss pattern can wedge the protocol;
+* `terminates_under_loss_budget`: with at most `k` losses (any `k`, any packets, at any moments) and *every* order of
+  the enabled bursts, every run is finite and ends complete - for runs in which the clock advances only when no packet
+  is in flight (`Loop.Fair`).
+
+Not proved: termination (as opposed to "no dead end" + "no premature end") for paths whose delay is *positive*, i.e.
+for runs in which a retransmission timer may expire while packets are still in flight (round-trip time ≥ RTO: spurious
+timeouts).  `Loop.Fair` lets the clock advance only when both paths are empty: the paths of
+`terminates_under_loss_budget` lose packets but deliver within the instant.  The missing piece is the timed channel
+(each packet in flight carries its delivery instant; the clock may advance up to the earliest of these and of the
+timer wake-ups) and the extension of the measure `TcpLive.mu` by the delivery instant of the packet that carries the
+progress; the invariant `LInv`, `fair_progress` and the first component of `mu` do not depend on the restriction.
+The 7 000+ closed loops of the thorough tier (all drop subsets of size ≤ 2 for flows of ≤ 8 segments, random larger
+ones, with positive path delays and initial RTOs on both sides of the round-trip time) all terminate complete, which
+is evidence, not proof.
+
+**A finding**: `mss ≤ cc.mss` is needed.  `TCPPacketGenerator.mss` is the constant 512 while the congestion-control
+object has its own `mss` parameter; with `TCPReno(mss=100, cwnd=512)`, a flow of 1024 bytes and the first transmission
+of segment 0 dropped, the real run ends (event queue empty) with `last_ack = next_seq = 512`, `recv_buffer =
+[[0, 512]]`: after the timeout `cwnd = cc.mss = 100`, the ACK of the retransmission makes it 200, and the send guard
+`next_seq + 512 ≤ last_ack + cwnd` never opens again while nothing is outstanding that could produce an event (the
+`example` below replays it in the model).
 -/
 
 /-! ## non-vacuity -/
